@@ -118,6 +118,13 @@ func (c *Ctx) Count(name string, n int) {
 	c.Res.Counters[name] += n
 }
 
+// CountMax keeps the maximum of a "max:" counter
+func (c *Ctx) CountMax(name string, n int) {
+	if v, ok := c.Res.Counters[name]; !ok || n > v {
+		c.Res.Counters[name] = n
+	}
+}
+
 func (c *Ctx) Distinct(h uint64) {
 	if _, ok := c.distinct[h]; ok {
 		return
